@@ -3,6 +3,7 @@ from __future__ import annotations
 
 import copy
 import random
+from fractions import Fraction
 import time
 
 import networkx as nx
@@ -51,6 +52,13 @@ def gen_tasks(tier, seed):
             if len(sps) > 1:
                 sp2 = rng.choice(sps)
                 tasks.append({**base, "edges": wedges, "constraints": [sp, sp2], "kwargs": {"weight_type": "int", "subpath_constraints": [sp, sp2], "optimization_options": {"optimize_with_greedy": False}}})
+            # guessed-weights shortcut (non-default): the auxiliary model must honour the constraints too. Every 2-edge
+            # subpath in turn (not sampled): the ones that cross the routes of the flow raise the constrained minimum
+            if rep == 0:
+                for sp2e in [c for c in sps if len(c) == 2][: (6 if tier == "quick" else 30)]:
+                    for extra in ({}, {"optimize_with_greedy": False}):
+                        tasks.append({**base, "edges": wedges, "constraints": [sp2e], "kwargs": {"weight_type": "int", "subpath_constraints": [sp2e],
+                                                                                                 "optimization_options": {"optimize_with_guessed_weights": True, **extra}}})
             # ignored element: minimum over decompositions of the non-ignored part
             e0 = rng.choice(es)
             if len(es) > 1:
@@ -121,6 +129,11 @@ def witness_ok(task, G, wit):
     return True
 
 
+def _returned_ok(task, G, m):
+    sol = m.get_solution()
+    return witness_ok(task, G, {"routes": [list(p) for p in sol["paths"]], "weights": [str(Fraction(w)) for w in sol["weights"]]})
+
+
 # --------------------------------------------------------------------------- the task
 def _mfd(task):
     m, G = models.construct(task)
@@ -175,6 +188,9 @@ def _run(task, res):
         res["discharged"] += 1
     else:
         sig = _diagnose(task, m, ok, got, k_ref, lb, statuses)
+        if ok and got < k_ref and not _returned_ok(task, G, m):
+            # fewer paths than the certified minimum AND the plain checker rejects what was returned: the model's fault, not the spec's
+            sig = "returned-decomposition-invalid(fewer-paths-than-any-valid-decomposition)"
         res["violations"].append({"signature": f"MinFlowDecomp:{sig}",
                                   "summary": f"{task['name']}: solved={ok} returned k={got}, reference minimum k={k_ref}, lowerbound={lb}",
                                   "replay": {"kind": "wrapper", "task": task, "k_ref": k_ref, "witness": wit}})
@@ -269,6 +285,10 @@ def replay(data):
             fp.MinFlowDecomp.subgraph_lowerbound_size, fp.MinFlowDecomp.subgraph_lowerbound_shift = old
         got = len(m.get_solution()["paths"]) if ok else None
         print(f"  replay: MinFlowDecomp solved={ok} k={got}; a valid decomposition with k={data['k_ref']} exists: {data['witness']}")
+        if ok and got < data["k_ref"]:
+            good = _returned_ok(task, G, m)
+            print(f"  replay: returned decomposition {m.get_solution()['paths']} accepted by the plain checker (flow, constraints): {good}")
+            return not good
         return (not ok) or got > data["k_ref"]
     if data["kind"] == "kmodel":
         m, _ = models.construct(task)
